@@ -28,10 +28,15 @@ def prepare(patch):
         r = sh("git -C /repo worktree add -q --detach %s HEAD" % SCRATCH)
         if r.returncode != 0:
             raise SystemExit("worktree: " + r.stderr)
-    sh("git -C %s checkout -q -- . && git -C %s clean -fdq -e target" % (SCRATCH, SCRATCH))
+    head = sh("git -C /repo rev-parse HEAD").stdout.strip()
+    sh("git -C %s checkout -q -- . && git -C %s clean -fdq -e target && git -C %s checkout -q --detach %s" %
+       (SCRATCH, SCRATCH, SCRATCH, head))
     r = sh("git -C %s apply %s" % (SCRATCH, os.path.abspath(patch)))
     if r.returncode != 0:
-        raise SystemExit("patch does not apply: " + r.stderr)
+        # the tree moved on since the change was written (later fix: commits): let patch(1) place the hunks
+        r = sh("cd %s && patch -p1 --no-backup-if-mismatch -F3 < %s" % (SCRATCH, os.path.abspath(patch)))
+        if r.returncode != 0:
+            raise SystemExit("patch does not apply: " + r.stdout + r.stderr)
 
 
 def run_checks(ids, tier="quick", seed="0"):
